@@ -271,6 +271,8 @@ func programs(r *vf.Run) []program {
 		"pattern_responses_share_schema":   `{"openapi":"3.0.3","info":{"title":"t","version":"1"},"paths":{"/a":{"get":{"operationId":"a","responses":{"200":{"description":"ok"},"4XX":{"description":"c","content":{"application/json":{"schema":{"$ref":"#/components/schemas/E"}}}},"5XX":{"description":"s","content":{"application/json":{"schema":{"$ref":"#/components/schemas/E"}}}}}}}},"components":{"schemas":{"E":{"type":"object","properties":{"m":{"type":"string"}}}}}}`,
 		"pattern_and_default_share_schema": `{"openapi":"3.0.3","info":{"title":"t","version":"1"},"paths":{"/a":{"get":{"operationId":"a","responses":{"200":{"description":"ok"},"4XX":{"description":"c","content":{"application/json":{"schema":{"$ref":"#/components/schemas/E"}}}},"default":{"description":"s","content":{"application/json":{"schema":{"$ref":"#/components/schemas/E"}}}}}}}},"components":{"schemas":{"E":{"type":"object","properties":{"m":{"type":"string"}}}}}}`,
 		"global_security_with_webhooks":    `{"openapi":"3.1.0","info":{"title":"t","version":"1"},"security":[{"K":[]}],"paths":{"/a":{"get":{"operationId":"a","responses":{"200":{"description":"ok"}}}}},"webhooks":{"evt":{"post":{"operationId":"hook","requestBody":{"content":{"application/json":{"schema":{"type":"object"}}}},"responses":{"200":{"description":"ok"}}}}},"components":{"securitySchemes":{"K":{"type":"apiKey","in":"header","name":"X-K"}}}}`,
+		"response_component_for_code_and_default": `{"openapi":"3.0.3","info":{"title":"t","version":"1"},"paths":{"/a":{"get":{"operationId":"a","responses":{"200":{"$ref":"#/components/responses/R"},"default":{"$ref":"#/components/responses/R"}}}}},"components":{"responses":{"R":{"description":"r","headers":{"X-H":{"schema":{"type":"string"}}},"content":{"application/json":{"schema":{"$ref":"#/components/schemas/S"}}}}},"schemas":{"S":{"type":"object","properties":{"m":{"type":"string"}}}}}}`,
+		"same_schema_two_header_sets":             `{"openapi":"3.0.3","info":{"title":"t","version":"1"},"paths":{"/a":{"get":{"operationId":"a","responses":{"200":{"description":"x","headers":{"X-1":{"schema":{"type":"string"}}},"content":{"application/json":{"schema":{"$ref":"#/components/schemas/S"}}}}}}},"/b":{"get":{"operationId":"b","responses":{"200":{"description":"y","headers":{"X-2":{"schema":{"type":"string"}}},"content":{"application/json":{"schema":{"$ref":"#/components/schemas/S"}}}}}}}},"components":{"schemas":{"S":{"type":"object","properties":{"m":{"type":"string"}}}}}}`,
 		"codes_share_schema":               `{"openapi":"3.0.3","info":{"title":"t","version":"1"},"paths":{"/a":{"get":{"operationId":"a","responses":{"400":{"description":"c","content":{"application/json":{"schema":{"$ref":"#/components/schemas/E"}}}},"404":{"description":"s","content":{"application/json":{"schema":{"$ref":"#/components/schemas/E"}}}}}}}},"components":{"schemas":{"E":{"type":"object","properties":{"m":{"type":"string"}}}}}}`,
 	}
 	var fnames []string
